@@ -1544,7 +1544,7 @@ def pst_tie_modules():
 REGS_SRC = "src/registers/core.c"
 REGS_WANT = ["reg_min", "reg_range_touches", "ra_addr_is_part_of", "ra_reg_is_part_of", "ra_reg_fits_into", "ra_range_touches",
              "register_entry_size"]
-REGS_NEEDS = {"Ufw.Tie.RegFns.Geometry": list(REGS_WANT)}
+REGS_NEEDS = {"Ufw.Tie.RegFns.Geometry": list(REGS_WANT), "Ufw.Tie.RegFns.EndToEnd": list(REGS_WANT)}
 REGS_STATUS = {}
 
 
